@@ -312,7 +312,8 @@ def residual_class(code, fn, tree, v):
             return "finally_local"
         if reason in loop_reasons and in_loop:
             return "finally_local"
-        if reason in ("StackUnderflow", "HandlerAboveStack", "ReturnWithHandlers") and pc >= first:
+        # (PopCaptured: on the h+1 path the scope-end Pop / CloseUpvalue sequence is applied one slot off)
+        if reason in ("StackUnderflow", "HandlerAboveStack", "ReturnWithHandlers", "PopCaptured") and pc >= first:
             return "finally_local"
     # umbrella rule for interactions of the open classes above (documented in notes/C04.md): the function has a
     # finally clause or a return inside try, and the verdict is about heights / handlers / the pending return -
@@ -1066,7 +1067,9 @@ def describe(it, k, fn, vd):
 def run(ctx):
     quick = ctx.quick()
     rng = ctx.rng
-    binary = ctx.harness("debug")
+    # the release build: compiling is deterministic, and a debug-build VM (collection at every allocation) needs
+    # ~35 ms to start with its built-ins, once per program
+    binary = ctx.harness("release")
     findings = load_findings()
     official = {k.get("class") for k in ctx.known_open()}
     items = []
